@@ -37,6 +37,8 @@ def clOf (s : String) : Option (Option Nat) :=
     | some n => if n < 4294967296 then some (some n) else some none   -- must fit a u32, else ignored
     | none => some none
 
+def sortStrings (l : List String) : List String := (l.toArray.qsort (fun a b => a < b)).toList
+
 def serverVerb (st : ServerSt) (ws : List String) : Option (ServerSt × String) :=
   match ws with
   | ["case", _, "srv", mr, mp, b] =>
@@ -57,6 +59,17 @@ def serverVerb (st : ServerSt) (ws : List String) : Option (ServerSt × String) 
       | some t =>
         let wo := wsMessage st.cfg st.sub t
         ({ st with sub := wo.nextSub }, s!"{wsRepr wo} | {invRepr wo.invoked}"))
+  | "burst" :: _mb :: _dup :: msgs =>
+    -- pipelined messages on a fresh connection (no subscription calls): the frames and the
+    -- invocations as multisets (sorted), whatever the send-queue capacity
+    some (match msgs.mapM unhexText with
+      | none => (st, "bad-op")
+      | some ts =>
+        let outs := ts.map (fun t => wsMessage st.cfg 0 t)
+        let frames := sortStrings ((outs.map (fun o => o.frames)).flatten.map hexText)
+        let invs := sortStrings ((outs.map (fun o => o.invoked)).flatten.map (fun i => hexText i.1 ++ ":" ++ hexText i.2))
+        let invS := if invs.isEmpty then "-" else String.intercalate "," invs
+        (st, s!"b:{frames.length}:{String.intercalate ":" frames} | {invS}"))
   | "http" :: m :: ct :: cl :: chunks =>
     some (match ctOf ct, clOf cl, chunks.mapM unhexText with
       | some c, some l, some cs =>
